@@ -172,7 +172,31 @@ func fnTy(params []string, res string) string {
 // declared returns the normal form of a func/method declaration:
 // "[P1 any, P2 any](param types) results". For methods the receiver's type
 // arguments are the Pi and no constraint list is printed.
-func declared(fd *ast.FuncDecl) string {
+func declared(fd *ast.FuncDecl) string { return declaredOpt(fd, false) }
+
+// optExecPkgs: packages whose members take, after the parameters of the family's
+// defining equation, one optional trailing variadic `...fp.Executor` (the executor the
+// callbacks are to run on). For members of these packages - and only for them - that one
+// trailing parameter is left out of the comparison; the harness never passes it.
+var optExecPkgs = map[string]bool{"future": true}
+
+// dropTrailingExec returns the parameter list without a final `name ...fp.Executor`
+// parameter (exactly that type, exactly one parameter, last position); anything else is
+// returned unchanged.
+func dropTrailingExec(fl *ast.FieldList) *ast.FieldList {
+	if fl == nil || len(fl.List) == 0 {
+		return fl
+	}
+	last := fl.List[len(fl.List)-1]
+	el, ok := last.Type.(*ast.Ellipsis)
+	if !ok || len(last.Names) > 1 || typeStr(el.Elt, nil) != "fp.Executor" {
+		return fl
+	}
+	return &ast.FieldList{List: fl.List[:len(fl.List)-1]}
+}
+
+// declaredOpt: declared, optionally with the trailing variadic executor parameter dropped.
+func declaredOpt(fd *ast.FuncDecl, dropExec bool) string {
 	ren := map[string]string{}
 	var tps []string
 	if fd.Recv != nil && len(fd.Recv.List) == 1 {
@@ -211,7 +235,11 @@ func declared(fd *ast.FuncDecl) string {
 	if len(tps) > 0 {
 		s = "[" + strings.Join(tps, ", ") + "]"
 	}
-	return s + fieldsStr(fd.Type.Params, ren) + resultsStr(fd.Type.Results, ren)
+	params := fd.Type.Params
+	if dropExec {
+		params = dropTrailingExec(params)
+	}
+	return s + fieldsStr(params, ren) + resultsStr(fd.Type.Results, ren)
 }
 
 // declaredType: "[P1 any, ...] <underlying type>"
@@ -287,7 +315,7 @@ func (g *generator) shape(m *member, constraint func(i int) string, params []str
 		tp = 0
 	}
 	want := wantSig(m.Pkg, tp, constraint, params, results)
-	got := declared(m.Decl)
+	got := declaredOpt(m.Decl, optExecPkgs[m.Pkg])
 	if got == want {
 		g.shapeOK++
 		return true
@@ -304,7 +332,7 @@ func (g *generator) methodShape(m *member, method string, params []string, resul
 		return false
 	}
 	want := wantSig(m.Pkg, 0, nil, params, results)
-	got := declared(fd)
+	got := declaredOpt(fd, optExecPkgs[m.Pkg])
 	if got == want {
 		g.shapeOK++
 		return true
